@@ -205,6 +205,8 @@ class Sym:
                 continue
             if isinstance(st, (ast.Pass, ast.Import, ast.ImportFrom, ast.Assert)):
                 continue
+            if isinstance(st, ast.Expr) and isinstance(st.value, ast.Call):
+                continue      # a call for its effect (validation helpers): no value
             if isinstance(st, ast.Assign):
                 if len(st.targets) == 1 and isinstance(st.targets[0], ast.Name):
                     # lazy: evaluated when (and if) the name is used
